@@ -95,3 +95,19 @@ Theorem C02_first_pass_visits : forall w r ns r1 addrs,
   length addrs = S (length ns) /\
   label_visits w (set_cur_last r (r_cur r) 0) ns (r_reloc r) 0 = Ok (pass1_of ns addrs).
 Proof. exact first_pass_visits. Qed.
+
+(** The final value of a label PER SCOPE: the value the scope's label table holds for [name] at the
+    end is the run address of its LabelNode, provided no other LabelNode / .incbin of that name is
+    passed LATER while the SAME scope is current (scope positions by the positional replay).  The
+    name may be reused freely in any other scope — the property's own "programs that reuse a name in
+    an inner scope". *)
+From A816 Require Import Proofs.ReplayProofs Proofs.ForwardExport.
+Theorem C02_label_final_value_scoped : forall w r pre name post out c l,
+  replay (r_scopes r) pre (r_cur r) 0 = Some (c, l) ->
+  qlab (r_scopes r) name c post c l ->
+  assemble_nodes w r (pre ++ NLabel name :: post) = Ok out ->
+  exists r1 a1 l1,
+    label_run w (set_cur_last r (r_cur r) 0) pre (r_reloc r) = Ok (r1, a1, l1) /\ r_cur r1 = c /\
+    forall s1, nth_error (r_scopes r1) c = Some s1 ->
+      exists s, nth_error (r_scopes (o_final out)) c = Some s /\ dict_get (s_labels s) name = Some (a_val a1).
+Proof. exact label_final_value_scoped. Qed.
